@@ -30,11 +30,11 @@ RULE = ("cases: package configurations; executions: convolve_model_dir on both f
         "non-trivial = distinct configurations with >= 2 models")
 ASSUMPTIONS = ["all SEDs of a package share the wavelength grid", "finite value alphabets"]
 REQUIRED_CLASSES = ['permuted-table', 'filenames-disagree-with-model-names', 'listing-reversed', 'sed-wav-ascending', 'three-filters', 'single-model', 'eight-models',
-                    'five-apertures', 'formats-compared', 'fits-compared', 'remove-resolved', 'all-permutations-4']
+                    'five-apertures', 'formats-compared', 'fits-compared', 'remove-resolved', 'all-permutations-4', 'apertures-in-other-unit']
 TIMEOUT = {'quick': 600, 'thorough': 3000}
 
 AXES = {'n_models': [3, 1, 2, 5, 8], 'n_ap': [2, 1, 3, 5], 'perm': ['identity', 'reversed', 'rotated', 'swap01'], 'fnames': ['same', 'reversed'],
-        'listing': ['sorted', 'reversed'], 'sord': ['wav-desc', 'wav-asc'], 'nfilt': [1, 3], 'rr': [False, True]}
+        'listing': ['sorted', 'reversed'], 'sord': ['wav-desc', 'wav-asc'], 'nfilt': [1, 3], 'rr': [False, True], 'ap_unit': ['AU', 'pc', 'cm']}
 
 
 def setup(tier, seed):
@@ -42,7 +42,7 @@ def setup(tier, seed):
     out = [c for c in out if not (c['n_models'] == 1 and c['perm'] != 'identity') and not (c['n_models'] == 2 and c['perm'] == 'rotated')]
     for n in (2, 3, 4):
         for p in itertools.permutations(range(n)):
-            out.append({'fam': 'allperm', 'n_models': n, 'n_ap': 2, 'perm': list(p), 'fnames': 'same', 'listing': 'sorted', 'sord': 'wav-desc', 'nfilt': 1, 'rr': False})
+            out.append({'fam': 'allperm', 'n_models': n, 'n_ap': 2, 'perm': list(p), 'fnames': 'same', 'listing': 'sorted', 'sord': 'wav-desc', 'nfilt': 1, 'rr': False, 'ap_unit': 'AU'})
     return {'tier': tier, 'seed': seed, 'cases': out}
 
 
@@ -89,7 +89,11 @@ def _read_conv(path, n_models, n_ap):
         ff = np.asarray(t['TOTAL_FLUX'], float).reshape(n_models, n_ap)
         ee = np.asarray(t['TOTAL_FLUX_ERR'], float).reshape(n_models, n_ap)
         fw = h[0].header.get('FILTWAV')
-        ap = np.asarray(h['APERTURES'].data['APERTURE'], float) if 'APERTURES' in h else None
+        ap = None
+        if 'APERTURES' in h:
+            from astropy import units as u
+            unit = h['APERTURES'].columns['APERTURE'].unit
+            ap = (np.asarray(h['APERTURES'].data['APERTURE'], float) * (u.Unit(unit) if unit else u.au)).to(u.au).value
     return names, ff, ee, fw, ap
 
 
@@ -108,6 +112,11 @@ def run_case(ctx, case, rec, d):
     perm = _perm(case['perm'], n_models)
     table_order = [base_names[i] for i in perm]
     ap = None if n_ap == 1 else 100.0 * 4.0 ** np.arange(n_ap)
+    apu = case.get('ap_unit', 'AU')
+    AU_IN = {'AU': 1.0, 'pc': 1.0 / 206264.80624709636, 'cm': 1.495978707e13}[apu]      # one AU expressed in the unit
+    ap_file = None if ap is None else ap * AU_IN
+    if apu != 'AU' and ap is not None:
+        rec.cls('apertures-in-other-unit')
     # physical SEDs: smooth, positive, different per model/aperture; last model strongly extended
     flux = np.zeros((n_models, n_ap, n_wav))
     for m in range(n_models):
@@ -149,10 +158,10 @@ def run_case(ctx, case, rec, d):
     # per-file: file names sorted differently from the model names when asked
     for m, nm in enumerate(base_names):
         fname = ('f%02d_sed.fits' % (n_models - 1 - m)) if case['fnames'] == 'reversed' else None
-        pkgwriter.write_sed_file(md1, nm, wav_file, flux[m][:, idx_file], err[m][:, idx_file], apertures_au=ap, filename=fname)
+        pkgwriter.write_sed_file(md1, nm, wav_file, flux[m][:, idx_file], err[m][:, idx_file], apertures_au=ap_file, ap_unit=apu, filename=fname)
     # cube: cube order = parameter-table order (the format requires it)
     pkgwriter.write_parameters(md2, table_order, {'par1': np.arange(n_models)[perm] + 0.5})
-    pkgwriter.write_cube(md2, table_order, wav_file, flux[perm][:, :, idx_file], unc=err[perm][:, :, idx_file], apertures_au=ap)
+    pkgwriter.write_cube(md2, table_order, wav_file, flux[perm][:, :, idx_file], unc=err[perm][:, :, idx_file], apertures_au=ap_file, ap_unit=apu)
     # ---- filters
     nu_asc = np.sort(pkgwriter.C_M_S / (w_asc * 1e-6))
     order_nu = np.argsort(pkgwriter.C_M_S / (w_asc * 1e-6))          # index into w_asc for increasing nu
@@ -213,7 +222,7 @@ def run_case(ctx, case, rec, d):
             if fw is None or abs(fw - cw) > 1e-12:
                 rec.violation('rows|FILTWAV', sub, {'got': fw, 'expected': cw})
             # a per-file SED without apertures carries the format's 1e-30 placeholder aperture; nothing is claimed about it
-            if (ap is not None and (fa is None or not np.allclose(fa, ap, rtol=1e-12))) or (ap is None and fa is not None and tag != 'v1'):
+            if (ap is not None and (fa is None or not np.allclose(fa, ap, rtol=1e-9))) or (ap is None and fa is not None and tag != 'v1'):
                 rec.violation('rows|apertures', sub, {'got': fa, 'expected': ap})
         a, b = outputs['v1'][f.name], outputs['v2-nomemmap'][f.name]
         c = outputs['v2-memmap'][f.name]
